@@ -790,6 +790,13 @@ class SchedSim(object):
             return
         if not self.settle():
             return
+        if self.waiting_uids():
+            # with tasks in the wait pool the scheduler may place one of them in the very loop
+            # iteration which takes the application's task in (wait pool first, then the input
+            # queue): a collision the application cannot foresee and the property does not
+            # demand.  Application placements are only submitted when nothing waits.
+            self.stats['app_skipped_waiters'] = self.stats.get('app_skipped_waiters', 0) + 1
+            return
         if self.app_nodelist is None:
             nl = NodeList(nodes=[Node(copy.deepcopy(n)) for n in self.initial_nodes])
             nl.verify()
